@@ -123,7 +123,7 @@ package destination
 //@     invariant[wf_dest] relayWf(dest)
 //@     invariant[wf_conn] connWf(conn)
 //@     invariant[wf_ticker] ticker != nil && ticker.C != nil
-//@     assumed_invariant[channel_ownership] !closed(dest.In) && connOpen(conn) && (signalConnOnline == nil || !closed(signalConnOnline)) && (conn != nil && signalConnOnline != nil ==> signalConnOnline != conn.keepSafe.closed)
+//@     assumed_invariant[channel_ownership] !closed(dest.In) && !closed(dest.connUpdates) && (dest.Spool ==> !closed(dest.spool.Out)) && connOpen(conn) && (signalConnOnline == nil || !closed(signalConnOnline)) && (conn != nil && signalConnOnline != nil ==> signalConnOnline != conn.keepSafe.closed)
 //@   branch "<-dest.In":
 //@     ensures[accounted; C06] exists e elem :: recvd(dest.In) == old(recvd(dest.In)) ++ e && (
 //@           (conn != nil && sent(conn.In) == old(sent(conn.In)) ++ e && dest.numDropSlowConn.count == old(dest.numDropSlowConn.count))
@@ -132,6 +132,20 @@ package destination
 //@        || (conn == nil && dest.Spool && sent(dest.spool.InRT) == old(sent(dest.spool.InRT)) && dest.numDropSlowSpool.count == old(dest.numDropSlowSpool.count) + 1)
 //@        || (conn == nil && !dest.Spool && dest.numDropNoConnNoSpool.count == old(dest.numDropNoConnNoSpool.count) + 1))
 //@     ensures[conn_down_no_spool_counts; C06] conn == nil && !dest.Spool ==> dest.numDropNoConnNoSpool.count == old(dest.numDropNoConnNoSpool.count) + 1
+//@   // C07, per iteration whichever case is taken: a connection that is dropped while spooling is on is handed to
+//@   // collectRedo exactly once (its in-flight lines are re-spooled), and nothing else is ever handed to it
+//@   branch "<-":
+//@     ensures[dead_conn_is_redone; C07] old(conn) != nil && conn == nil && dest.Spool ==>
+//@          spawned("(*github.com/grafana/carbon-relay-ng/destination.Destination).collectRedo") == old(spawned("(*github.com/grafana/carbon-relay-ng/destination.Destination).collectRedo")) ++ argsOf(dest, old(conn))
+//@     ensures[redo_only_the_dropped_conn; C07] spawned("(*github.com/grafana/carbon-relay-ng/destination.Destination).collectRedo") == old(spawned("(*github.com/grafana/carbon-relay-ng/destination.Destination).collectRedo"))
+//@          || (old(conn) != nil && dest.Spool && spawned("(*github.com/grafana/carbon-relay-ng/destination.Destination).collectRedo") == old(spawned("(*github.com/grafana/carbon-relay-ng/destination.Destination).collectRedo")) ++ argsOf(dest, old(conn)))
+//@   // C07: the backlog is read only while a connection is up and no line had to be dropped in this or the last
+//@   // ticker period, and an unspooled line is handed to the connection or counted
+//@   branch "<-toUnspool":
+//@     ensures[unspool_gate; C07] conn != nil && dest.Spool && !old(dest.SlowLastLoop) && !old(dest.SlowNow) && toUnspool == dest.spool.Out
+//@     ensures[unspooled_sent_or_counted; C07] exists e elem :: recvd(dest.spool.Out) == old(recvd(dest.spool.Out)) ++ e && (
+//@           (sent(conn.In) == old(sent(conn.In)) ++ e && dest.numDropSlowConn.count == old(dest.numDropSlowConn.count))
+//@        || (sent(conn.In) == old(sent(conn.In)) && dest.numDropSlowConn.count == old(dest.numDropSlowConn.count) + 1))
 
 // ---------------------------------------------------------------- conn.go: framing of the socket stream (C05)
 // linesOf(log): the lines received so far, each followed by one newline, in order
@@ -174,12 +188,13 @@ package destination
 //@   ensures[appended; C07] len(k.safeRecent) == old(len(k.safeRecent)) + 1 && k.safeRecent[old(len(k.safeRecent))] == buf
 //@        && (forall j int :: 0 <= j && j < old(len(k.safeRecent)) ==> k.safeRecent[j] == old(k.safeRecent[j]))
 //@   ensures[old_kept; C07] k.safeOld == old(k.safeOld) && (forall j int :: 0 <= j && j < len(k.safeOld) ==> k.safeOld[j] == old(k.safeOld[j]))
+//@   ensures[recent_array] k.safeRecent.arr == old(k.safeRecent.arr) || fresh(k.safeRecent)
 //@   ensures[unlocked] !k.Mutex.held && k.closed == old(k.closed) && k.initialCap == old(k.initialCap)
 //@
 //@ func (k *keepSafe) GetAll() [][]byte
 //@   property C07
 //@   requires !k.Mutex.held && k.initialCap >= 0
-//@   modifies *
+//@   modifies k.safeOld, k.safeRecent, k.Mutex.held, k.safeOld[..]
 //@   ensures[everything_kept; C07] len(result) == old(len(k.safeOld)) + old(len(k.safeRecent))
 //@        && (forall j int :: 0 <= j && j < old(len(k.safeOld)) ==> result[j] == old(k.safeOld[j]))
 //@        && (forall j int :: 0 <= j && j < old(len(k.safeRecent)) ==> result[old(len(k.safeOld)) + j] == old(k.safeRecent[j]))
@@ -193,14 +208,91 @@ package destination
 //@
 //@ func (c *Conn) HandleData()
 //@   property C05,C07,C14
-//@   requires connBufOK(c) && c.numErrFlush != nil && c.periodFlush > 0 && c.In != nil && c.keepSafe != nil && !c.keepSafe.Mutex.held && c.flush != nil && c.flushErr != nil && !closed(c.flushErr) && c.shutdown != nil
+//@   requires connBufOK(c) && c.numErrFlush != nil && c.periodFlush > 0 && c.In != nil && c.keepSafe != nil && !c.keepSafe.Mutex.held && (c.keepSafe.safeOld.arr != c.keepSafe.safeRecent.arr || c.keepSafe.safeOld.arr == 0) && c.flush != nil && c.flushErr != nil && !closed(c.flushErr) && c.shutdown != nil
 //@   requires recvd(c.In) == lnil && c.buffered.view() == "" && !c.pickle && c.numOut != nil
 //@   modifies *
 //@   loop 1:
 //@     invariant[wf] connBufOK(c) && c.In != nil && c.keepSafe != nil && !c.keepSafe.Mutex.held && c.flush != nil && c.flushErr != nil && c.shutdown != nil && !c.pickle && c.numOut != nil && c.numErrFlush != nil && tickerFlush != nil && tickerFlush.C != nil
 //@     // not yet discharged (recursive spec function + concatenation): c.buffered.view() == linesOf(recvd(c.In))
 //@     assumed_invariant[channel_ownership] !closed(c.In) && !closed(c.flushErr)
-//@     assumed_invariant[keepsafe_buffers] c.keepSafe.safeOld.arr != c.keepSafe.safeRecent.arr || c.keepSafe.safeOld.arr == 0
+//@     invariant[keepsafe_buffers] c.keepSafe.safeOld.arr != c.keepSafe.safeRecent.arr || c.keepSafe.safeOld.arr == 0
 //@   assume_recv "<-c.In": $recv.arr != c.buffered.buf.arr
 //@   branch "<-c.In":
 //@     ensures[kept_safe_before_write; C07] exists b elem :: recvd(c.In) == old(recvd(c.In)) ++ b && len(c.keepSafe.safeRecent) == old(len(c.keepSafe.safeRecent)) + 1
+
+//@ // ---------------------------------------------------------------- conn.go / keepsafe.go / spool.go: the redo path (C07)
+//@ func (c *Conn) clearRedo()
+//@   trusted
+//@   modifies c.keepSafe.closed
+//@
+//@ // getRedo: everything kept safe plus everything still queued for the connection, nothing dropped
+//@ func (c *Conn) getRedo() [][]byte
+//@   property C07
+//@   requires c.keepSafe != nil && c.In != nil && c.numBuffered != nil && !c.keepSafe.Mutex.held && c.keepSafe.initialCap >= 0
+//@   requires c.keepSafe.safeOld.arr != c.keepSafe.safeRecent.arr || c.keepSafe.safeOld.arr == 0
+//@   let k := c.keepSafe
+//@   modifies *
+//@   ensures[count; C07] len(result) == old(len(k.safeOld)) + old(len(k.safeRecent)) + llen(recvd(c.In)) - old(llen(recvd(c.In)))
+//@   ensures[kept_old; C07] forall j int :: 0 <= j && j < old(len(k.safeOld)) ==> result[j] == old(k.safeOld[j])
+//@   ensures[kept_recent; C07] forall j int :: 0 <= j && j < old(len(k.safeRecent)) ==> result[old(len(k.safeOld)) + j] == old(k.safeRecent[j])
+//@   ensures[emptied; C07] len(k.safeOld) == 0 && len(k.safeRecent) == 0
+//@   loop 1:
+//@     invariant[wf] c.keepSafe == k && c.In == old(c.In) && c.numBuffered == old(c.numBuffered) && !k.Mutex.held && k.initialCap >= 0 && (k.safeOld.arr != k.safeRecent.arr || k.safeOld.arr == 0)
+//@     invariant[old_kept] k.safeOld == old(k.safeOld) && (forall j int :: 0 <= j && j < len(k.safeOld) ==> k.safeOld[j] == old(k.safeOld[j]))
+//@     invariant[recent_grows] len(k.safeRecent) - llen(recvd(c.In)) == old(len(k.safeRecent)) - old(llen(recvd(c.In))) && llen(recvd(c.In)) >= old(llen(recvd(c.In)))
+//@     invariant[recent_kept] forall j int :: 0 <= j && j < old(len(k.safeRecent)) ==> k.safeRecent[j] == old(k.safeRecent[j])
+//@     assumed_invariant[channel_ownership] !closed(c.In)
+//@   branch "<-c.In":
+//@     ensures[drained_line_kept; C07] exists b elem :: recvd(c.In) == old(recvd(c.In)) ++ b && len(k.safeRecent) == old(len(k.safeRecent)) + 1 && elemOf(k.safeRecent[old(len(k.safeRecent))]) == b
+//@
+//@ // keepClean: a tick only ever discards lines that are at least one whole period old
+//@ func (k *keepSafe) keepClean()
+//@   property C07
+//@   requires k.periodKeep > 0 && !k.Mutex.held && k.initialCap >= 0 && k.closed != nil
+//@   modifies *
+//@   loop 1:
+//@     invariant[wf] !k.Mutex.held && k.initialCap >= 0 && k.closed != nil && tick != nil && tick.C != nil
+//@   branch "<-tick.C":
+//@     ensures[recent_becomes_old; C07] k.safeOld == old(k.safeRecent) && (forall j int :: 0 <= j && j < len(k.safeOld) ==> k.safeOld[j] == old(k.safeRecent[j])) && len(k.safeRecent) == 0
+//@
+//@ // Ingest: the redo lines go to the spool's bulk input, all of them, in order (ingested(n): the log after n lines)
+//@ smt (declare-fun ingested (Int) Log)
+//@ func (s *Spool) Ingest(bulkData [][]byte)
+//@   property C07
+//@   requires s.InBulk != nil && !closed(s.InBulk)
+//@   define ingested(0) == old(sent(s.InBulk))
+//@   define forall n int :: 0 <= n && n < len(bulkData) ==> ingested(n + 1) == ingested(n) ++ elemOf(bulkData[n])
+//@   modifies sent(s.InBulk)
+//@   ensures[all_in_order; C07] sent(s.InBulk) == ingested(len(bulkData))
+//@   loop 1:
+//@     invariant[idx] 0 <= #i && #i <= len(#s) && #s == bulkData && s.InBulk == old(s.InBulk)
+//@     invariant[prefix_sent] sent(s.InBulk) == ingested(#i)
+//@     assumed_invariant[channel_ownership] !closed(s.InBulk)
+//@
+//@ // collectRedo: what getRedo returns is what Ingest gets
+//@ func (d *nsqd.DiskQueue) Put(data []byte) error
+//@   trusted
+//@   logged
+//@
+//@ // Writer / Buffer: every line taken from an input of the spool is handed to the disk queue
+//@ func (s *Spool) Writer()
+//@   property C07
+//@   requires s.InRT != nil && s.InBulk != nil && s.queueBuffer != nil && !closed(s.queueBuffer) && s.shutdownWriter != nil && s.numIncomingRT != nil && s.numIncomingBulk != nil && s.numBuffered != nil && s.durationBuffer != nil
+//@   modifies *
+//@   loop 1:
+//@     invariant[wf] s.InRT != nil && s.InBulk != nil && s.queueBuffer != nil && s.shutdownWriter != nil && s.numIncomingRT != nil && s.numIncomingBulk != nil && s.numBuffered != nil && s.durationBuffer != nil
+//@     assumed_invariant[channel_ownership] !closed(s.queueBuffer) && !closed(s.InRT) && !closed(s.InBulk)
+//@   branch "<-s.InRT":
+//@     ensures[rt_line_buffered; C07] exists e elem :: recvd(s.InRT) == old(recvd(s.InRT)) ++ e && sent(s.queueBuffer) == old(sent(s.queueBuffer)) ++ e
+//@   branch "<-s.InBulk":
+//@     ensures[bulk_line_buffered; C07] exists e elem :: recvd(s.InBulk) == old(recvd(s.InBulk)) ++ e && sent(s.queueBuffer) == old(sent(s.queueBuffer)) ++ e
+//@
+//@ func (s *Spool) Buffer()
+//@   property C07
+//@   requires s.queueBuffer != nil && s.shutdownBuffer != nil && s.queue != nil && s.numBuffered != nil && s.durationWrite != nil
+//@   modifies *
+//@   loop 1:
+//@     invariant[wf] s.queueBuffer != nil && s.shutdownBuffer != nil && s.queue != nil && s.numBuffered != nil && s.durationWrite != nil
+//@     assumed_invariant[channel_ownership] !closed(s.queueBuffer)
+//@   branch "<-s.queueBuffer":
+//@     ensures[buffered_line_put; C07] exists e elem, b elem :: recvd(s.queueBuffer) == old(recvd(s.queueBuffer)) ++ e && calls(s.queue.Put) == old(calls(s.queue.Put)) ++ eP(e, eNil)
